@@ -17,7 +17,7 @@ from .values import (
     round_half_even, to_real, sabs, smin, smax, kind_of, S, exact,
 )
 
-__all__ = ["SArr", "MaskedSel", "asarr", "is_arr", "broadcast_shapes", "norm_index", "norm_slice",
+__all__ = ["SArr", "MaskedSel", "mask_selection", "compress_rows", "asarr", "is_arr", "broadcast_shapes", "norm_index", "norm_slice",
            "pointwise", "from_nested", "full", "SliceV"]
 
 
@@ -208,6 +208,8 @@ def from_nested(obj, dtype=None):
     """list / tuple nesting (possibly containing SArr) -> SArr"""
     if isinstance(obj, SArr):
         return obj
+    if isinstance(obj, MaskedSel) and obj.mask.ndim == 1 and obj.arr.ndim >= 1:
+        return compress_rows(obj.arr, obj.mask)
     if is_num(obj):
         k = kind_of(obj)
         return SArr((), lambda idx, v=obj: v, dtype or k)
@@ -371,15 +373,16 @@ def map1(f, a, dtype=None):
 # indexing
 
 
-def norm_index(i, n):
-    """Python index normalisation for one integer index."""
+def norm_index(i, n, force=False):
+    """Python index normalisation for one integer index (force: also while a contract clause is being evaluated --
+    for index maps that program code created and a clause merely looks through)."""
     if _is_concrete_int(i):
         if i < 0:
             return arith("+", i, n)
         return i
     if is_sym(i):
         from . import values as _V
-        if not _V.SAFETY[0]:
+        if not _V.SAFETY[0] and not force:
             # contract clauses index with in-range, non-negative indices only (stated convention)
             return i
         return ite(compare("<", i, 0), arith("+", i, n), i)
@@ -431,16 +434,65 @@ def _is_full_slice(k):
     return isinstance(k, slice) and k.start is None and k.stop is None and k.step is None
 
 
+def mask_selection(mask):
+    """rows selected by a 1-d boolean mask of length n, as numpy / polars select them: a count c and an index map
+    sel: [0, c) -> [0, n) that is strictly increasing, hits only rows where the mask holds and hits all of them
+    (Skolem inverse `inv`).  Memoised on the mask object: every container indexed with the same mask gets the same
+    map."""
+    import z3
+    from . import values as _V
+    got = getattr(mask, "_selection", None)
+    if got is not None:
+        return got
+    n = mask.shape[0]
+    name = _V.fresh_name("msel")
+    cnt = Sym(z3.Int(name + "_count"))
+    self_f = z3.Function(name + "_row", z3.IntSort(), z3.IntSort())
+    inv_f = z3.Function(name + "_inv", z3.IntSort(), z3.IntSort())
+    j, i = z3.Int(name + "!j"), z3.Int(name + "!i")
+    mf = mask.snapshot()
+
+    def mterm(ix):
+        v = mf((Sym(ix),))
+        return _V._bool_term(v) if is_sym(v) else z3.BoolVal(bool(v))
+    p = _V.PATH[0]
+    if p is not None:
+        nn = _V.lift(n)
+        p.conds.append(z3.And(cnt.t >= 0, cnt.t <= nn))
+        p.conds.append(z3.ForAll([j], z3.Implies(z3.And(j >= 0, j < cnt.t),
+                                                 z3.And(self_f(j) >= 0, self_f(j) < nn, mterm(self_f(j))))))
+        p.conds.append(z3.ForAll([j], z3.Implies(z3.And(j >= 0, j + 1 < cnt.t), self_f(j) < self_f(j + 1))))
+        p.conds.append(z3.ForAll([i], z3.Implies(z3.And(i >= 0, i < nn, mterm(i)),
+                                                 z3.And(inv_f(i) >= 0, inv_f(i) < cnt.t, self_f(inv_f(i)) == i))))
+    sel = (cnt, lambda jj: Sym(self_f(_V.lift(jj))), lambda ii: Sym(inv_f(_V.lift(ii))))
+    try:
+        mask._selection = sel
+    except Exception:
+        pass
+    return sel
+
+
+def compress_rows(a, mask):
+    """a[mask] for a 1-d boolean mask over the first axis of a (numpy semantics)"""
+    cnt, sel, _ = mask_selection(mask)
+    af = a.snapshot()
+    return SArr((cnt,) + tuple(a.shape[1:]), lambda idx: af((sel(idx[0]),) + tuple(idx[1:])), a.dtype)
+
+
 def getitem(a: SArr, key):
     if isinstance(key, SArr) and key.dtype == "bool":
-        return MaskedSel(a, key)       # same-shape mask, or a 1-d mask selecting rows (axis 0)
+        # same-shape mask, or a 1-d mask selecting rows (axis 0): kept symbolic; used as an array it is materialised
+        # by from_nested (compress_rows)
+        return MaskedSel(a, key)
     if isinstance(key, SArr) and key.ndim == 1 and a.ndim >= 1:
         # integer fancy index on the first axis
         kf = key.snapshot()
         af = a.snapshot()
         n0 = a.shape[0]
+        from . import values as _V
+        by_code = bool(_V.SAFETY[0])
         return SArr(key.shape + a.shape[1:],
-                    lambda idx: af((norm_index(kf((idx[0],)), n0),) + tuple(idx[1:])), a.dtype)
+                    lambda idx: af((norm_index(kf((idx[0],)), n0, force=by_code),) + tuple(idx[1:])), a.dtype)
     if not isinstance(key, tuple):
         key = (key,)
     # expand Ellipsis
